@@ -195,19 +195,84 @@ def wrap_at_entry(repo: Repo, rep):
     else:
         rep.violation("R-WRAP-AT-ENTRY", mu, mu.node, f"map_unmanaged returns {sorted(map(str, rets))[:3]}: unmanaged values must be wrapped in Unmanaged and managed ones returned unchanged", construct="map_unmanaged")
     # update_allowed / is_unmanaged
+    # decided by evaluating the two predicates on the four combinations of their atoms (D: the value is a dirty-equals expression,
+    # I: it is an instance of a registered unmanaged type) - whatever form they are written in
+    um_mod = repo.module("_unmanaged.py")
+
+    def ev(e, env, depth=0):
+        if isinstance(e, ast.Constant):
+            return bool(e.value)
+        if isinstance(e, ast.UnaryOp) and isinstance(e.op, ast.Not):
+            v = ev(e.operand, env, depth)
+            return None if v is None else (not v)
+        if isinstance(e, ast.BoolOp):
+            vals = [ev(x, env, depth) for x in e.values]
+            if isinstance(e.op, ast.Or):
+                return True if any(v is True for v in vals) else (None if any(v is None for v in vals) else False)
+            return False if any(v is False for v in vals) else (None if any(v is None for v in vals) else True)
+        if isinstance(e, ast.Call):
+            fn = norm(e.func)
+            if fn.endswith("is_dirty_equal"):
+                return env["D"]
+            if fn == "isinstance" and len(e.args) == 2 and "unmanaged_types" in norm(e.args[1]):
+                return env["I"]
+            g = um_mod.funcs.get(fn)
+            if g is not None and depth < 3:
+                return run(g.node.body, env, depth + 1)
+        if isinstance(e, ast.Name) and e.id in env:
+            return env[e.id]
+        return None
+
+    def run(stmts, env, depth=0):
+        env = dict(env)
+        for st in stmts:
+            if isinstance(st, ast.Return):
+                return ev(st.value, env, depth) if st.value is not None else False
+            if isinstance(st, ast.If):
+                t = ev(st.test, env, depth)
+                if t is None:
+                    return None
+                r = run(st.body if t else st.orelse, env, depth)
+                if r != "fall":
+                    return r
+            elif isinstance(st, ast.Assign) and len(st.targets) == 1 and isinstance(st.targets[0], ast.Name):
+                env[st.targets[0].id] = ev(st.value, env, depth)
+            elif isinstance(st, ast.Expr) and isinstance(st.value, ast.Constant):
+                continue
+            elif isinstance(st, (ast.Global, ast.Nonlocal, ast.Pass)):
+                continue
+            else:
+                return None
+        return "fall"
+
     ua = repo.func("_unmanaged.py::update_allowed")
-    src = " ".join(norm(s) for s in ua.node.body if isinstance(s, ast.Return))
-    if "is_dirty_equal" in src and "isinstance" in src and "unmanaged_types" in src and src.strip().startswith("return not"):
-        rep.ok("R-WRAP-AT-ENTRY", ua, ua.node, "update_allowed = not (dirty-equals or instance of an unmanaged type)")
-    else:
-        rep.violation("R-WRAP-AT-ENTRY", ua, ua.node, f"update_allowed is `{src[:70]}`: it no longer excludes dirty-equals values and the registered unmanaged types", construct="update_allowed")
     iu = repo.find_func("_unmanaged.py", "is_unmanaged")
-    if iu is not None:
-        src = " ".join(norm(s) for s in iu.node.body if isinstance(s, ast.Return))
-        if src.replace(" ", "").startswith("returnnotupdate_allowed("):
-            rep.ok("R-WRAP-AT-ENTRY", iu, iu.node, "is_unmanaged = not update_allowed")
+    for fn_, want, what in ((ua, lambda d, i: not (d or i), "update_allowed"), (iu, lambda d, i: (d or i), "is_unmanaged")):
+        if fn_ is None:
+            continue
+        wrong = []
+        unknown = False
+        for d in (False, True):
+            for i_ in (False, True):
+                r = run(fn_.node.body, {"D": d, "I": i_})
+                if r is None or r == "fall":
+                    unknown = True
+                elif bool(r) != want(d, i_):
+                    wrong.append((d, i_, r))
+        if unknown:
+            rep.undecided("R-WRAP-AT-ENTRY", f"{what} could not be evaluated over its atoms (is_dirty_equal / isinstance(.., unmanaged_types))")
+        elif wrong:
+            d, i_, r = wrong[0]
+            rep.violation(
+                "R-WRAP-AT-ENTRY",
+                fn_,
+                fn_.node,
+                f"{what} answers {r} for a value with dirty-equals={d}, instance-of-unmanaged-type={i_}: "
+                + ("it no longer excludes dirty-equals values and the registered unmanaged types" if what == "update_allowed" else "it is not the negation of update_allowed"),
+                construct=what,
+            )
         else:
-            rep.violation("R-WRAP-AT-ENTRY", iu, iu.node, f"is_unmanaged is `{src[:60]}`, not the negation of update_allowed", construct="is_unmanaged")
+            rep.ok("R-WRAP-AT-ENTRY", fn_, fn_.node, f"{what} = {'not ' if what == 'update_allowed' else ''}(dirty-equals or instance of an unmanaged type), on all four combinations")
     um = repo.module("_unmanaged.py")
     lst = [s for s in um.globals_assigned.get("unmanaged_types", []) if isinstance(s, ast.Assign)]
     names = {x.id for s in lst for x in ast.walk(s.value) if isinstance(x, ast.Name)}
@@ -412,6 +477,59 @@ def _star_tests(f: Func, cfg: CFG, node_txt: str):
             r = reach(cfg, t, skip_labels=("exc",))
             first_ret = [x for x in t if x.kind == "stmt" and isinstance(x.ast, ast.Return)]
             yields_change = any(x.is_yield for x in reach(cfg, t, blocked_nodes=[x for x in r if x.kind == "stmt" and isinstance(x.ast, ast.Return)], skip_labels=("exc",)))
+            for k in kinds:
+                out.append((c, k, bool(first_ret) or not yields_change))
+        # predicate helper of the opposite polarity: `if not self._keys_match_nodes(..): return` - the helper answers truthy only
+        # when the display has NO star-expression (`return not any(key is None for key in keys) and ...`)
+        for c in cfg.conds():
+            e = c.ast
+            if not isinstance(e, ast.Call):
+                continue
+            g = None
+            if isinstance(e.func, ast.Attribute) and isinstance(e.func.value, ast.Name) and f.params and e.func.value.id == f.params[0]:
+                owner = f
+                while owner is not None and owner.cls is None:
+                    owner = owner.parent
+                if owner is not None:
+                    g = _repo_for_star.lookup_method(owner.cls, e.func.attr)
+            elif isinstance(e.func, ast.Name):
+                r_ = _repo_for_star.resolve_name(f.module, e.func.id)
+                g = r_[1] if r_ and r_[0] == "func" else None
+            if g is None or g is f:
+                continue
+            # the node inside the helper: the parameter that receives it, or the same field of the same object
+            inner = None
+            idxs = [i for i, a in enumerate(e.args) if norm(a) == node_txt]
+            gparams = g.params[1:] if (g.cls is not None and "staticmethod" not in g.decorators) else g.params
+            if idxs and idxs[0] < len(gparams):
+                inner = gparams[idxs[0]]
+            elif f.params and g.params and node_txt.startswith(f.params[0] + ".") and g.cls is not None:
+                inner = g.params[0] + node_txt[len(f.params[0]):]
+            if inner is None:
+                continue
+            rets = [r for r in body_nodes(g.node) if isinstance(r, ast.Return) and r.value is not None]
+            if len(rets) != 1:
+                continue
+            v = rets[0].value
+            parts = v.values if isinstance(v, ast.BoolOp) and isinstance(v.op, ast.And) else [v]
+            aliases = {t_.id: norm(st_.value) for st_ in body_nodes(g.node) if isinstance(st_, ast.Assign) for t_ in st_.targets if isinstance(t_, ast.Name)}
+            kinds = set()
+            for pt in parts:
+                if isinstance(pt, ast.UnaryOp) and isinstance(pt.op, ast.Not) and isinstance(pt.operand, ast.Call) and norm(pt.operand.func) == "any":
+                    s_ = norm(pt.operand)
+                    for al, tx in aliases.items():
+                        if tx.startswith(inner + "."):
+                            s_ = s_.replace(f" in {al})", f" in {tx})")
+                    if inner in s_:
+                        k = "starred" if "Starred" in s_ else "none-key" if "is None" in s_ and ".keys" in s_ else "kwarg-none" if ".arg is None" in s_ else None
+                        if k:
+                            kinds.add(k)
+            if not kinds:
+                continue
+            fe = [b for b, l in c.succ if l == "F"]
+            r = reach(cfg, fe, skip_labels=("exc",))
+            first_ret = [x for x in fe if x.kind == "stmt" and isinstance(x.ast, ast.Return)]
+            yields_change = any(x.is_yield for x in reach(cfg, fe, blocked_nodes=[x for x in r if x.kind == "stmt" and isinstance(x.ast, ast.Return)], skip_labels=("exc",)))
             for k in kinds:
                 out.append((c, k, bool(first_ret) or not yields_change))
     return out
